@@ -8,6 +8,7 @@ operation must fail visibly: neither a normal return nor a hang) is evaluated on
 the implementation's outcome.  Serial mode is checked directly.
 """
 import contextlib
+import signal
 import io
 
 import common
@@ -31,6 +32,14 @@ def classify(outcome):
     return "hang"
 
 
+class _SerialCallHung(BaseException):
+    pass
+
+
+def _on_alarm(_sig, _frm):
+    raise _SerialCallHung()
+
+
 EXC_KINDS = (lambda: RuntimeError("boom"), lambda: OSError(28, "No space left on device"), lambda: FileNotFoundError("gone"),
              lambda: ValueError("bad tile"), lambda: MemoryError())
 
@@ -49,7 +58,7 @@ def serial_checks(V):
             os.environ["JPY_PARENT_PID"] = "1"
         else:
             os.environ.pop("JPY_PARENT_PID", None)
-        for what in ("walk", "visit_leaves", "transform"):
+        for what in ("walk", "visit_leaves", "transform", "transform2", "multi_tan", "multi_wcs"):
             for progress in (False, True):                   # with and without the progress bar (stdout is not a tty here)
               for mk_exc in EXC_KINDS:                       # whatever the kind of error
                 for when in (1, 3):                          # failing at the first / a later item
@@ -60,18 +69,64 @@ def serial_checks(V):
                         calls[0] += 1
                         if calls[0] >= when:
                             raise mk_exc()
+                    hung = False
+                    signal.signal(signal.SIGALRM, _on_alarm)
+                    signal.alarm(25)          # a serial call that does not come back is a failure too
                     try:
                         with contextlib.redirect_stdout(sink), contextlib.redirect_stderr(sink):
                             if what == "walk":
                                 Pyramid.new_generic(2).walk(lambda pos: boom(), parallel=1, cli_progress=progress)
                             elif what == "visit_leaves":
                                 Pyramid.new_generic(1).visit_leaves(lambda pos, tile: boom(), parallel=1, cli_progress=progress)
+                            elif what in ("multi_tan", "multi_wcs"):
+                                # the public tile(parallel=1) of the multi-image tilers: the k-th input fails
+                                from toasty.multi_tan import MultiTanProcessor
+                                from toasty.multi_wcs import MultiWcsProcessor
+                                rec0 = corr_C03.Rec([None])
+                                rec0.worker = lambda: -1
+                                coll = corr_C03._FakeColl(4, rec0, set())
+
+                                class _Img(corr_C03._FakeImage):
+                                    def _hit(self_inner):
+                                        boom()
+                                orig_images = coll.images
+
+                                def images():
+                                    for im in orig_images():
+                                        yield _Img(im.i, rec0, set())
+                                coll.images = images
+                                if what == "multi_tan":
+                                    proc = MultiTanProcessor(coll)
+                                    proc._descs = [corr_C03._FakeDesc(i) for i in range(4)]
+                                    proc._n_todo = 4
+                                    proc._tiling = type("T", (), {"_tile_levels": 0})()
+                                    proc.tile(corr_C03._FakePio(), parallel=1, cli_progress=progress)
+                                else:
+                                    proc = MultiWcsProcessor(coll)
+                                    proc._descs = [corr_C03._FakeDesc(i) for i in range(4)]
+                                    proc._n_todo = 4
+                                    proc._combined_shape = (8, 8)
+                                    proc._combined_wcs = None
+                                    proc.tile(corr_C03._FakePio(), None, parallel=1, cli_progress=progress)
                             else:
-                                transform._do_a_transform(None, 1, lambda: None, lambda buf, pos, a, b: boom(),
-                                                          parallel=1, cli_progress=progress)
+                                transform._do_a_transform(None, 2 if what == "transform2" else 1, lambda: None,
+                                                          lambda buf, pos, a, b: boom(), parallel=1, cli_progress=progress)
+                    except _SerialCallHung:
+                        hung = True
                     except Exception as e:  # noqa
                         raised = type(e) is type(mk_exc())
+                    finally:
+                        signal.alarm(0)
                     n += 1
+                    if hung:
+                        V.disagreement("serial mode propagates callback errors",
+                                       dict(stage=what, parallel=1, cli_progress=progress, fails_at_call=when,
+                                            JPY_PARENT_PID_set=jupyter, error=type(mk_exc()).__name__),
+                                       f"{type(mk_exc()).__name__} reaches the caller", "the call did not return within 25 s", True)
+                        import multiprocessing as _mp
+                        for ch in _mp.active_children():
+                            ch.terminate()
+                        return n
                     if not raised:
                         V.disagreement("serial mode propagates callback errors",
                                        dict(stage=what, parallel=1, cli_progress=progress, fails_at_call=when,
